@@ -59,9 +59,6 @@ RESET_IGNORED = {
 }
 # members whose value never depends on input history or that every calculation overwrites before reading
 # name -> reason (reviewed by hand; a new untouched member that is not listed here breaks `every_member_accounted`)
-SCRATCH = {}
-
-SCRATCH_FILE = Path(__file__).resolve().parent / "c07_scratch.txt"   # not used: list kept inline below
 
 
 def _cmd(tu, flt="Phreeqc"):
@@ -581,93 +578,25 @@ def gen_dump_header(fields, types):
 
 
 # ---------------------------------------------------------------------------------------------------- classification
-SCRATCH = {
-    "phrq_io": "pointer to the owning IPhreeqc object; set once by the constructor",
-    "ioInstance": "fallback PHRQ_io of a stand-alone Phreeqc; unused because phrq_io points to the IPhreeqc object",
-    "last_model": "see last_model.numerical_fixed_volume (all other fields are reset)",
-    "last_model.numerical_fixed_volume": "only compared by check_same_model when last_model.force_prep is false; init() sets force_prep and the first prep() stores the whole last_model",
-    "charge_group_map": "calc_all_donnan / calc_init_donnan clear and refill it before reading",
-    "Dispersion_mix_map": "rebuilt by init_mix/set_transport at the start of transport(), erased by transport_cleanup",
-    "description_x": "assigned by prep()/xsolution_zero() for the solution being calculated",
-    "units_x": "assigned the constant moles_per_kilogram_string by xsolution_zero()",
-    "default_pe_x": "cleared and assigned by setup_solution (prep) before it is read",
-    "mixrun": "assigned by transport() before use",
-    "s_diff_layer": "resized and refilled by calc_init_g / calc_init_donnan for every surface calculation",
-    "sit_aqueous_unknowns": "assigned by build_model",
-    "gas_unknowns": "cleared by setup_fixed_volume_gas; readers are guarded by gas_unknown, which init() sets to NULL",
-    "status_string": "screen status text", "screen_string": "screen status text",
-    "rate_p": "cleared and filled from the KINETICS parameters by calc_kinetic_reaction before every rate evaluation",
-    "fpunchf_user_buffer": "snprintf'ed immediately before each use (first byte zeroed by init)",
-    "max_strings": "never written or read",
-    "kgw_kgs": "assigned by initial_solutions before use", "bdot_llnl": "assigned by gammas() before use",
-    "user_database": "only used by the stand-alone main program (class_main.cpp, not in the library)",
-    "solution_volume_x": "assigned by calc_dens", "solution_mass_x": "assigned by calc_dens",
-    "rho_0_sat": "assigned by calc_rho_0", "SC": "assigned by calc_SC",
-    "sys": "cleared and filled by system_total*",
-    "sum_species_map": "cleared by build_model, which the first calculation after a load runs (force_prep)",
-    "sum_species_map_db": "cleared by build_model, which the first calculation after a load runs (force_prep)",
-    "tally_table": "freed column by column in free_tally_table (clean_up); only used by the PHAST tally interface",
-    "inverse_heading_names": "cleared and filled by punch_model_heading",
-}
-for _n in ("x_arg", "res_arg", "scratch"):
-    SCRATCH[_n] = "cl1 work array: resized and zero-filled by cl1_space before every cl1 call"
-for _n in ("col_name", "row_name", "inv_zero", "array1", "inv_res", "inv_delta1", "delta2", "delta3", "inv_cu", "delta_save", "min_delta",
-           "max_delta", "inv_iu", "inv_is", "row_back", "col_back", "good", "bad", "minimal"):
-    SCRATCH[_n] = "inverse-modelling work array: sized and filled by setup_inverse/solve_inverse for every INVERSE_MODELING run"
-for _n in ("normal", "ineq_array", "res", "cu", "zero", "delta1", "iu", "is", "back_eq"):
-    SCRATCH[_n] = "ineq() work array: resized and filled at the start of every ineq() call"
-for _n in ("s_list", "cation_list", "neutral_list", "anion_list", "ion_list", "param_list"):
-    SCRATCH[_n] = "cleared and filled by pitzer_make_lists / sit_make_lists for every model"
+# The reviewed lists (healed, scratch, fileNames, ioHealed, wrapperClass) live in lean/PhreeqcVerif/Model/ResetPolicy.lean;
+# they are parsed here so that the Python side (reporting, dynamic checks) and the Lean obligations use one text.
+def policy():
+    src = (vlib.LEAN / "PhreeqcVerif" / "Model" / "ResetPolicy.lean").read_text()
+    out = {}
+    for m in re.finditer(r"^def (\w+) : List \(String × String\) :=\n(.*?)(?=^\S|\Z)", src, re.M | re.S):
+        out[m.group(1)] = re.findall(r'\("((?:[^"\\]|\\.)*)",\s*"((?:[^"\\]|\\.)*)"\)', m.group(2))
+    for k in ("healed", "scratch", "fileNames", "ioHealed", "wrapperClass"):
+        if k not in out or not out[k]:
+            raise RuntimeError(f"ResetPolicy.lean: list {k} not found")
+    return out
 
-# the property's own exception: user-set file names survive a load
-FILE_NAMES = {"dump_file_name_cpp": "TRANSPORT -dump_file name", "dump_info.file_name": "DUMP -file name (kept on purpose by UnLoadDatabase)"}
 
 # known-finding keys -> members they cover (a `finding: property=C07 key=<key>` line in known_findings.txt puts them in knownUnreset)
 FINDING_KEYS = {
-    "unreset-mix-maps": ["Rxn_solution_mix_map", "Rxn_exchange_mix_map", "Rxn_gas_phase_mix_map", "Rxn_kinetics_mix_map",
-                         "Rxn_pp_assemblage_mix_map", "Rxn_ss_assemblage_mix_map", "Rxn_surface_mix_map"],
-    "unreset-copy-lists": ["copy_solution", "copy_pp_assemblage", "copy_exchange", "copy_surface", "copy_ss_assemblage", "copy_gas_phase",
-                           "copy_kinetics", "copy_mix", "copy_reaction", "copy_temperature", "copy_pressure"],
     "unreset-run-delete-info": ["run_info", "delete_info"],
     "unreset-unnumbered-solutions": ["unnumbered_solutions"],
     "unreset-caches": ["gfw_map", "rates_map"],
-    "unreset-io-flags": ["io.log_on", "io.punch_on", "io.dump_on"],
-}
-
-# data members of class IPhreeqc (+ base PHRQ_io, prefix io.): what a load does with them
-WRAPPER_CLASS = {
-    "Index": ("id", "instance id"),
-    "OutputFileOn": ("switch", ""), "LogFileOn": ("switch", ""), "ErrorFileOn": ("switch", ""), "DumpOn": ("switch", ""),
-    "DumpStringOn": ("switch", ""), "OutputStringOn": ("switch", ""), "LogStringOn": ("switch", ""), "ErrorStringOn": ("switch", ""),
-    "io.error_on": ("switch", "SetErrorOn"),
-    "OutputFileName": ("name", ""), "ErrorFileName": ("name", ""), "LogFileName": ("name", ""), "DumpFileName": ("name", ""),
-    "SelectedOutputFileNameMap": ("name", ""),
-    "DatabaseLoaded": ("unload", ""), "ClearAccumulated": ("unload", ""), "UpdateComponents": ("unload", ""),
-    "SelectedOutputFileOnMap": ("unload", ""), "SelectedOutputStringOn": ("unload", ""), "CurrentSelectedOutputUserNumber": ("unload", ""),
-    "SelectedOutputMap": ("unload", ""), "SelectedOutputStringMap": ("unload", ""), "SelectedOutputLinesMap": ("unload", ""),
-    "StringInput": ("unload", "via ClearAccumulatedLines"), "DumpString": ("unload", ""), "DumpLines": ("unload", ""),
-    "Components": ("unload", ""), "ErrorString": ("unload", ""), "WarningString": ("unload", ""), "io.io_error_count": ("unload", ""),
-    "ErrorReporter": ("unload", "ErrorReporter->Clear()"), "WarningReporter": ("unload", "WarningReporter->Clear()"),
-    "OutputString": ("percall", "check_database"), "OutputLines": ("percall", "check_database"),
-    "LogString": ("percall", "check_database"), "LogLines": ("percall", "check_database"),
-    "ErrorLines": ("percall", "update_errors"), "WarningLines": ("percall", "update_errors"),
-    "WarningStringOn": ("const", "no setter exists"),
-    "PhreeqcPtr": ("const", "engine pointer"), "input_file": ("const", "always NULL"), "database_file": ("const", "always NULL"),
-    "EquilibriumPhasesList": ("derived", "refilled by ListComponents when UpdateComponents"),
-    "GasComponentsList": ("derived", ""), "KineticReactionsList": ("derived", ""), "SolidSolutionComponentsList": ("derived", ""),
-    "SolidSolutionNamesList": ("derived", ""), "SurfaceTypeList": ("derived", ""), "SurfaceNamesList": ("derived", ""),
-    "ExchangeNamesList": ("derived", ""),
-    "io.output_ostream": ("percall", "close_output_files"), "io.log_ostream": ("percall", "close_output_files"),
-    "io.punch_ostream": ("percall", "close_output_files"), "io.error_ostream": ("percall", "close_output_files"),
-    "io.dump_ostream": ("percall", "close_output_files"),
-    "io.output_on": ("const", "never changed by the library"), "io.screen_on": ("const", "never changed by the library"),
-    "io.echo_destination": ("const", "never changed by the library"),
-    "io.log_on": ("ioflag", "KNOBS -logfile"), "io.punch_on": ("ioflag", "PRINT -selected_output"), "io.dump_on": ("ioflag", "PRINT -dump"),
-    "io.echo_on": ("ioflag", "PRINT -echo_input"),
-    "io.istream_list": ("percall", "clear_istream"), "io.delete_istream_list": ("percall", "clear_istream"),
-    "io.m_line": ("percall", "line reader scratch"), "io.m_line_save": ("percall", "line reader scratch"),
-    "io.accumulated": ("percall", "line reader scratch"), "io.m_next_keyword": ("percall", "line reader scratch"),
-    "io.accumulate": ("percall", "line reader scratch"), "io.m_line_type": ("percall", "line reader scratch"),
+    "unreset-io-flags": ["io.punch_on", "io.dump_on"],
 }
 
 
@@ -790,7 +719,7 @@ def analyse(res, errors):
     w_unload = set(un["resets"]) | {m.split("->")[0] for m in un["mcalls"] if m.endswith("->Clear")}
     if "ClearAccumulatedLines" in un["calls"]:
         w_unload |= set((WM.get("ClearAccumulatedLines") or {}).get("writes", []))
-    w_unload = {("io." + p if p in [f[0] for f in iof] else p) for p in w_unload if not p.startswith("E:")}
+    w_unload = {("io." + p if p in [f[0] for f in iof] else p) for p in w_unload if not p.startswith("E:")} | Uio
     w_unload_writes = {("io." + p if p in [f[0] for f in iof] else p) for p in un["writes"] if not p.startswith("E:")} | w_unload
     percall = set()
     for fn in ("check_database", "update_errors", "close_output_files"):
@@ -804,7 +733,8 @@ def analyse(res, errors):
     known = set()
     for k in keys:
         known |= set(FINDING_KEYS.get(k, []))
-    return dict(names=names, idx=idx, parent=parent, top=top, subs=subs, A=A, C=C, U=U, S=S, W=Wset, R=R, unknown=sorted(set(unknown)),
+    pol = policy()
+    return dict(pol=pol, names=names, idx=idx, parent=parent, top=top, subs=subs, A=A, C=C, U=U, S=S, W=Wset, R=R, unknown=sorted(set(unknown)),
                 errors=errs, Wio=Wio, Sio=Sio, Uio=Uio, wnames=wnames, w_unload=w_unload, w_unload_writes=w_unload_writes,
                 percall=percall, ctor=set(ctor["resets"]), known=known, keys=keys, M=M, WM=WM, types=types, fields=fields)
 
@@ -817,13 +747,18 @@ def covered_py(a, p):
     return bool(kids) and all(q in R for q in kids)
 
 
+def pol_names(a, k):
+    return {n for n, _ in a["pol"][k]}
+
+
 def uncovered_readers(a):
-    """reader-written member paths that no part of the load path resets (file names excepted)"""
+    """reader-written member paths that no part of the load path resets and the policy does not explain"""
     out = []
+    ok = pol_names(a, "healed") | pol_names(a, "fileNames") | a["known"]
     for p in sorted(a["W"]):
         if p not in a["idx"]:
             continue
-        if covered_py(a, p) or p in FILE_NAMES:
+        if covered_py(a, p) or p in ok or p.split(".")[0] in ok:
             continue
         if "." in p and not covered_py(a, p.split(".")[0]) and p.split(".")[0] in a["W"]:
             continue                     # reported once, under its parent
@@ -832,8 +767,8 @@ def uncovered_readers(a):
 
 
 def unaccounted(a):
-    return [p for p in a["names"] if not covered_py(a, p) and p not in SCRATCH and p not in FILE_NAMES
-            and p.split(".")[0] not in SCRATCH and p not in a["W"] and p.split(".")[0] not in a["W"]]
+    ok = pol_names(a, "healed") | pol_names(a, "fileNames") | pol_names(a, "scratch") | a["known"]
+    return [p for p in a["names"] if not covered_py(a, p) and p not in ok]
 
 
 def emit_lean(a):
@@ -853,13 +788,17 @@ def emit_lean(a):
     L.append(f"/-- C: cleared/freed by {', '.join(RESET_CLEAN)} -/\ndef cleaned : List Nat :=\n  {nat_list(ids(a['C']))}\n")
     L.append(f"/-- U: engine members IPhreeqc::UnLoadDatabase resets itself -/\ndef unloadReset : List Nat :=\n  {nat_list(ids(a['U']))}\n")
     L.append(f"/-- S: reset at the top of read_input(), before the first input line of every simulation is read -/\ndef simPrologue : List Nat :=\n  {nat_list(ids(a['S']))}\n")
+    mask = 0
+    for i in ids(a["A"] | a["C"] | a["U"] | a["S"]):
+        mask |= 1 << i
+    L.append(f"/-- bit i set iff member i is in initAssigned ++ cleaned ++ unloadReset ++ simPrologue (checked by `reset_mask_ok`) -/\ndef resetMask : Nat := {mask}\n")
     L.append(f"/-- W: written (in any way) by a function reachable from read_input() ({len(a['R'])} functions) -/\ndef readerWritten : List Nat :=\n  {nat_list(ids(a['W']))}\n")
-    sc = [p for p in a["names"] if p in SCRATCH]
-    L.append("/-- reviewed: members whose value cannot carry history into a result (reason = who overwrites it before any read) -/")
-    L.append("def scratchReasons : List (Nat × String) :=\n  [" + ",\n   ".join(f"({idx[p]}, {lean_str(SCRATCH[p])})" for p in sc) + "]\n")
-    L.append("def scratch : List Nat := scratchReasons.map (·.1)\n")
-    fn = [p for p in a["names"] if p in FILE_NAMES]
-    L.append(f"/-- file names set by the user's input: allowed to survive by the property -/\ndef fileNames : List Nat := {nat_list(ids(fn))}\n")
+    for key in ("healed", "scratch", "fileNames"):
+        nm = [n for n, _ in a["pol"][key]]
+        missing = [n for n in nm if n not in idx]
+        if missing:
+            a["errors"].append(f"ResetPolicy.{key} names unknown members: {missing}")
+        L.append(f"/-- ids of ResetPolicy.{key} (same order; checked by `policy_ids_ok`) -/\ndef {key}Ids : List Nat := {nat_list([idx[n] for n in nm if n in idx])}\n")
     L.append(f"/-- members covered by a `finding: property=C07 key=…` line of known_findings.txt (keys: {sorted(a['keys'])}) -/\n"
              f"def knownUnreset : List Nat := {nat_list(ids(a['known']))}\n")
     L.append(f"def unknownResetCallees : List String := {str_list(a['unknown'])}\n")
@@ -872,9 +811,6 @@ def emit_lean(a):
     # wrapper
     L.append("/-- data members of class IPhreeqc and (prefix io.) of its base PHRQ_io -/")
     L.append(f"def wrapperFields : List String :=\n  {str_list(a['wnames'])}\n")
-    L.append("/-- reviewed classification: id | switch | name (survivors), unload (reset by UnLoadDatabase), percall (overwritten by every Run*, hence by\n"
-             "    test_db), derived (refilled on demand), const, ioflag (PHRQ_io flag that input can set) -/")
-    L.append("def wrapperClass : List (String × String) :=\n  [" + ",\n   ".join(f"({lean_str(k)}, {lean_str(v[0])})" for k, v in WRAPPER_CLASS.items()) + "]\n")
     L.append(f"/-- wrapper members IPhreeqc::UnLoadDatabase resets (assignment, .clear(), Reporter->Clear()) -/\ndef wrapperUnloadResets : List String :=\n  {str_list(sorted(a['w_unload']))}\n")
     L.append(f"/-- wrapper members IPhreeqc::UnLoadDatabase writes in any way -/\ndef wrapperUnloadWrites : List String :=\n  {str_list(sorted(a['w_unload_writes']))}\n")
     L.append(f"/-- wrapper members written by check_database / update_errors / close_output_files (run by every Run*) -/\ndef wrapperPerCall : List String :=\n  {str_list(sorted(a['percall']))}\n")
@@ -891,7 +827,7 @@ def generate(ctx=None):
     dumped, skipped = gen_dump_header(a["fields"], a["types"])
     info = dict(members=len(a["top"]), field_paths=len(a["subs"]), init_assigned=len(a["A"]), cleaned=len(a["C"]),
                 unload_reset=sorted(a["U"]), sim_prologue=len(a["S"]), reader_functions=len(a["R"]), reader_written=len(a["W"]),
-                scratch=len([p for p in a["names"] if p in SCRATCH]), uncovered_readers=uncovered_readers(a), unaccounted=unaccounted(a),
+                scratch=len(a["pol"]["scratch"]), uncovered_readers=uncovered_readers(a), unaccounted=unaccounted(a),
                 unknown_reset_callees=a["unknown"], translator_errors=a["errors"], tus_cached=cached, tus=len(res),
                 dumped_members=len(dumped), not_dumped=skipped, lean_changed=changed,
                 io_flags=dict(readers=sorted(a["Wio"]), prologue=sorted(a["Sio"]), unload=sorted(a["Uio"])),
